@@ -476,7 +476,7 @@ def flags_tok(bl, iu, iw):
 
 def op_token(op):
     k = op[0]
-    if k in ("mw", "aw"):
+    if k in ("mw", "aw", "iw"):
         return "%s/%s/%s" % (k, canon(op[1]), "N" if not op[2] else ";".join(canon(x) for x in op[2]))
     if k in ("as", "ah", "os"):
         return "%s/%s/%s" % (k, canon(op[1]), canon(op[2]))
@@ -511,6 +511,12 @@ def apply_op(t, op):
         t.set_witness(op[1], list(op[2]))
     elif k == "aw":
         t.txs_in[op[1]].witness = list(op[2])
+    elif k == "iw":                      # in place: the list object stored in the TxIn is extended
+        w = t.txs_in[op[1]].witness
+        if isinstance(w, tuple):         # set_witness stores a tuple: += rebinds, which is the same observable change
+            t.txs_in[op[1]].witness = w + tuple(op[2])
+        else:
+            w.extend(list(op[2]))
     elif k == "as":
         t.txs_in[op[1]].script = op[2]
     elif k == "ah":
@@ -646,6 +652,7 @@ def g_mutators(rng, d):
     wit = rng.choice([[b"\x30" * 71, b"\x02" * 33], [b""], [b"", b"x"]])
     new_in = (blob(rng, 32), rng.randrange(4), b"", U32, rng.choice([[], [b"\x01"], [b""]]))
     ms = [("mw", i, wit), ("mw", i, []), ("aw", i, wit), ("aw", i, []), ("aw", n_in, wit), ("mw", n_in + 1, wit),
+          ("iw", i, wit), ("iw", i, [b"\x01"]), ("iw", n_in, wit),
           ("as", i, blob(rng, rng.choice([0, 1, 107, 253]))), ("ah", i, blob(rng, 32)), ("ah", i, bytes(32)), ("ai", i, rng.choice([0, 5, U32])),
           ("aq", i, rng.choice([0, U32 - 1])), ("pi", new_in), ("pi", (blob(rng, 32), 1, b"s", 0, [b"w"])), ("xi",), ("ci",),
           ("po", (rng.choice([0, 1, 5000]), b"\x51")), ("xo",), ("co",), ("ov", o, rng.choice([0, 7, U64])), ("os", o, blob(rng, rng.choice([0, 25, 253]))),
@@ -704,6 +711,65 @@ def direct_history_cases(rng, tier):
         d = g_tx(rng, n_in=rng.choice([1, 2, 3]), n_out=rng.choice([0, 1, 2]))
         ops = [rng.choice(g_mutators(rng, d)) for _ in range(rng.randint(1, 6))]
         res.append((d, [], ops, rng.choice(codes)))
+    return res
+
+
+# ---- worlds: several live objects, operations interleaved (Model/TxObject.v World, Props/C07 C07_world_projection) ----
+def mk_world_obj(d, how, cls):
+    """objects as programs make them: parsed from bytes, or built from default-constructed TxIn objects (no witness argument,
+    no witness assignment) — the model's object has the same fields either way"""
+    if how == "parse" and valid_tx(d) and len(d[1]) > 0:
+        return cls.from_bin(spec_ser(d))
+    ver, ins, outs, lock = d
+    tins = []
+    for (h, i, sc, q, w) in ins:
+        x = cls.TxIn(h, i, sc, q)
+        if w:
+            x.witness = list(w)
+        tins.append(x)
+    return cls(ver, tins, [cls.TxOut(v, sc) for (v, sc) in outs], lock)
+
+
+def world_impl(ds, hows, wops, k, cls):
+    """run the interleaved operations on live objects; return object k's trace in the format of hist_impl"""
+    objs = [mk_world_obj(d, how, cls) for d, how in zip(ds, hows)]
+    for o in objs:
+        o.unspents = []
+    out = []
+    for (j, op) in wops:
+        r = call(apply_op, objs[j], op)
+        if j == k:
+            out.append(r)
+    return "[" + " ".join(out) + "]"
+
+
+def world_cases(rng, tier):
+    """(ds, hows, wops): 2..3 transactions, interleaved mutators (mostly witness edits in place) and observers"""
+    res = []
+    bases = base_history_txs(rng)
+    legacy = [d for d in bases if not any(i[4] for i in d[1])]
+    for _ in range(60 if tier == "quick" else 2500):
+        n = rng.choice([2, 2, 3])
+        ds = [rng.choice(legacy + [g_tx(rng, n_in=rng.choice([1, 2]), n_out=rng.choice([1, 2]), wmode=rng.choice(["none", "none", None]))])
+              for _ in range(n)]
+        hows = [rng.choice(["parse", "ctor"]) for _ in range(n)]
+        wops = []
+        for _ in range(rng.randint(3, 10)):
+            j = rng.randrange(n)
+            r = rng.random()
+            if r < 0.45:
+                ni = len(ds[j][1])
+                wit = rng.choice([[b"\x30" * 71, b"\x02" * 33], [b""], [b"x"]])
+                wops.append((j, rng.choice([("iw", rng.randrange(max(1, ni)), wit), ("iw", 0, wit), ("aw", 0, wit), ("mw", 0, wit)])))
+            elif r < 0.6:
+                wops.append((j, rng.choice(g_mutators(rng, ds[j]))))
+            else:
+                wops.append((j, rng.choice(BATTERY)))
+        for j in range(n):
+            wops.append((j, ("on",)))
+            wops.append((j, ("ob", (False, False, True))))
+            wops.append((j, ("oj",)))
+        res.append((ds, hows, wops))
     return res
 
 
@@ -903,6 +969,12 @@ def model_cases(rng, tier):
     # histories of one object: observe, mutate, observe again (Model/TxObject.v)
     for (d, us, ops, code) in history_cases(rng, tier):
         yield Case(hist_line(HNAME[code], d, us, ops), (lambda d=d, us=us, ops=ops, code=code: hist_impl(d, us, ops, NET_CLASSES[code])))
+    # worlds of several live objects: object k's trace must be the single-object model's trace of k's own operations
+    for (ds, hows, wops) in world_cases(rng, tier):
+        for k, d in enumerate(ds):
+            mine = [op for (j, op) in wops if j == k]
+            yield Case(hist_line(HNAME["BTC"], d, [], mine),
+                       (lambda ds=ds, hows=hows, wops=wops, k=k: world_impl(ds, hows, wops, k, NET_CLASSES["BTC"])))
     # ids on every network's Tx class
     for k, d in enumerate(txs[:60 if tier == "quick" else 1500]):
         if big(d):
